@@ -1,7 +1,7 @@
 from typing import List, Tuple
 
 from classy_blocks.base.exceptions import EdgeNotFoundError
-from classy_blocks.construct.edges import EdgeData
+from classy_blocks.construct.edges import EdgeData, Project
 from classy_blocks.construct.operations.operation import Operation
 from classy_blocks.items.edges.edge import Edge
 from classy_blocks.items.edges.factory import factory
@@ -29,6 +29,13 @@ class EdgeList:
             # if this edge exists in the list, return it regardless of what's
             # specified in edge_data; redefinitions of the same edges are ignored
             edge = self.find(vertex_1, vertex_2)
+
+            if isinstance(edge.data, Project) and isinstance(data, Project):
+                # two operations that project their common edge don't contradict each other:
+                # the edge lies on both surfaces (a new object; the existing one belongs to the first operation)
+                missing = [label for label in data.label if label not in edge.data.label]
+                if missing:
+                    edge.data = Project([*edge.data.label, *missing])
         except EdgeNotFoundError:
             edge = factory.create(vertex_1, vertex_2, data)
 
